@@ -1508,7 +1508,7 @@ def balance_stoichiometry(
                 raise ValueError("Component '%s' not among products" % ck)
 
     A = MutableDenseMatrix([[_get(ck, sk) for sk in subst_keys] for ck in cks])
-    A = nsimplify(A)
+    A = A.applyfunc(lambda e: nsimplify(e, rational=True))  # nsimplify(Matrix) leaves floats
     symbs = list(reversed([next(parametric_symbols) for _ in range(len(subst_keys))]))
     (sol,) = linsolve((A, zeros(len(cks), 1)), symbs)
     try:
